@@ -100,6 +100,15 @@ namespace nmtools::index::impl
         // also track free axes
         auto free_axes = free_axes_t{};
         bool success = bdim >= adim;
+        // zero (no empty arrays) / negative (numpy raises) target extents are invalid
+        if constexpr (!meta::is_tuple_v<bshape_t> && !meta::is_constant_index_array_v<bshape_t>) {
+            for (size_t i=0; i<(size_t)bdim; i++) {
+                if ((long long)at(bshape,i) <= 0) {
+                    using return_t = nmtools_maybe<nmtools_tuple<result_t,free_axes_t>>;
+                    return return_t{meta::Nothing};
+                }
+            }
+        }
 
         // for shape_broadcast_to, the dimension will follow input shape (bshape)
         // in numpy, the following will raises error
